@@ -397,7 +397,7 @@ LOCAL_PLAN = {
     'C06': [('build', True), ('service', True), ('aggregate', True)],
     'C07': [('build', False), ('build', True), ('service', False), ('service', True)],
     'C08': [('build', False), ('service', False)],
-    'C11': [('service', False), ('service', True), ('aggregate', False)],
+    'C11': [('service', False), ('service', True), ('aggregate', False), ('build', False)],
     'C20': [('aggregate', False), ('aggregate', True)],
 }
 LOCAL_MONITORS = {
@@ -430,6 +430,7 @@ def run_local(arg):
         out['alternatives'] = len(u.alt_names)
         s = u.solver(timeout_ms=300000)
         G = u.ghosts[-1]
+        s.add(z3.Not(G['env_inconsistent']))
         for name in LOCAL_MONITORS[prop]:
             if name == 'twice' and watch:
                 continue
